@@ -118,9 +118,9 @@ package parser
 //@   ensures [C12:new-errors-have-lines] newErrorsHaveLines(self.BinModel, old(len(self.BinModel.SyntaxErrors))) && forall(i, 0, old(len(self.BinModel.SyntaxErrors)), self.BinModel.SyntaxErrors[i] == old(self.BinModel.SyntaxErrors[i]))
 //@   ensures isField(result)
 //@   loop 0 invariant forall(i, 0, len(subFields), fieldOK(subFields[i]))
-//@   loop 2 invariant forall(i, 0, len(subFields), fieldOK(subFields[i]))
+//@   loop 1 invariant forall(i, 0, len(subFields), fieldOK(subFields[i]))
 //@   loop 0 invariant newErrorsHaveLines(self.BinModel, old(len(self.BinModel.SyntaxErrors))) && forall(i, 0, old(len(self.BinModel.SyntaxErrors)), self.BinModel.SyntaxErrors[i] == old(self.BinModel.SyntaxErrors[i]))
-//@   loop 2 invariant newErrorsHaveLines(self.BinModel, old(len(self.BinModel.SyntaxErrors))) && forall(i, 0, old(len(self.BinModel.SyntaxErrors)), self.BinModel.SyntaxErrors[i] == old(self.BinModel.SyntaxErrors[i]))
+//@   loop 1 invariant newErrorsHaveLines(self.BinModel, old(len(self.BinModel.SyntaxErrors))) && forall(i, 0, old(len(self.BinModel.SyntaxErrors)), self.BinModel.SyntaxErrors[i] == old(self.BinModel.SyntaxErrors[i]))
 //@   decreases 2*depth(ctx)
 
 //@ func (*PacketDslVisitorImpl).VisitLengthFieldDeclaration
